@@ -141,7 +141,7 @@ func RunFamily(f *Family, tier string) int {
 	unobs := 0
 	var unobsSample []string
 	for _, e := range execs {
-		ev, err := Observation(e)
+		ev, err := Observation(e, f.JudgeBuild)
 		if err != nil {
 			return infra(f.Prop, err)
 		}
@@ -187,6 +187,33 @@ func RunFamily(f *Family, tier string) int {
 			viols = append(viols, viol{r, evExec[r.L-1]})
 		}
 	}
+	// --- full report log (every non-ok event), for triage ---
+	{
+		dir := filepath.Join(Home(), "replay", f.Prop)
+		_ = os.MkdirAll(dir, 0o755)
+		if fh, err := os.Create(filepath.Join(dir, fmt.Sprintf("reports-%s-seed%d.ndjson", tier, seed))); err == nil {
+			enc := json.NewEncoder(fh)
+			enc.SetEscapeHTML(false)
+			for _, r := range reports {
+				e := evExec[r.L-1]
+				m := map[string]any{"class": r.Class, "kind": r.Kind, "devs": r.Devs, "ref": r.Ref, "obs": r.Obs, "impl": r.Impl,
+					"schema": e.Schema, "opts": e.Unit.Raw["opts"], "builderr": firstLine(e.BuildErr)}
+				for _, k := range []string{"pos", "ctx", "kind", "use", "req"} {
+					if v, ok := e.Unit.Raw[k]; ok {
+						m["unit_"+k] = v
+					}
+				}
+				if r.I >= 1 && r.I <= len(e.Texts) && e.Out != nil && r.I <= len(e.Out.Res) {
+					m["doc"] = e.Texts[r.I-1]
+					m["msg"] = e.Out.Res[r.I-1].Msg
+					m["dump"] = e.Out.Res[r.I-1].Dump
+					m["out"] = e.Out.Res[r.I-1].Out
+				}
+				_ = enc.Encode(m)
+			}
+			fh.Close()
+		}
+	}
 	// --- confirm violations by re-execution as singleton programs ---
 	confirmed := 0
 	var vlines []string
@@ -217,7 +244,7 @@ func RunFamily(f *Family, tier string) int {
 				if len(vlines) < 10 {
 					rp := &Replay{Property: f.Prop, Kind: "runtime-unit/" + v.rep.Kind, Unit: v.e.Unit.Raw, DocIndex: 0,
 						Schema: v.e.Schema, Options: v.e.Unit.Opts(), Expected: v.rep.Ref, Observed: v.rep.Obs,
-						Detail: "unit-level check failed: " + v.rep.Kind, HowTo: "bin/vcheck replay " + f.Prop + " <this file>"}
+						Detail: "unit-level check failed: " + v.rep.Kind + " " + firstLine(v.e.BuildErr), HowTo: "bin/vcheck replay " + f.Prop + " <this file>"}
 					p, err := writeReplay(rp, fmt.Sprintf("seed%d-unit%d-%s", seed, v.e.Unit.Idx, v.rep.Kind))
 					if err != nil {
 						return infra(f.Prop, err)
@@ -257,6 +284,10 @@ func RunFamily(f *Family, tier string) int {
 	for _, k := range []int{0, len(evExec) / 2, len(evExec) - 1} {
 		if k >= 0 && k < len(evExec) {
 			e := evExec[k]
+			if e.Out == nil || len(e.Out.Res) == 0 {
+				samples = append(samples, map[string]any{"schema": e.Schema, "compiles": false, "compiler": firstLine(e.BuildErr)})
+				continue
+			}
 			j := len(e.Texts) / 2
 			samples = append(samples, map[string]any{"schema": e.Schema, "document": e.Texts[j],
 				"observed_error": e.Out.Res[j].Err, "error_text": e.Out.Res[j].Msg, "remarshalled": e.Out.Res[j].Out})
@@ -362,7 +393,7 @@ func ReplayFile(f *Family, path string) int {
 	if err != nil {
 		return infra(f.Prop, err)
 	}
-	ev, _ := Observation(ex[0])
+	ev, _ := Observation(ex[0], f.JudgeBuild)
 	if ev == nil {
 		return infra(f.Prop, fmt.Errorf("unit not observable: %s %s", ex[0].GenErr, ex[0].BuildErr))
 	}
